@@ -1,4 +1,4 @@
 INIT Init
 NEXT Next
-INVARIANTS Bounded NoGrowth Pumped
+INVARIANTS Bounded NoGrowth LinearTotal Pumped
 CHECK_DEADLOCK FALSE
